@@ -42,6 +42,19 @@ class Cell(object):
         return self
 
 
+class Pair(object):
+    def __init__(self):
+        self.v = 0
+        self.w = 0
+
+    def put_v(self, v):
+        self.v = v
+
+    def put_v_and_more(self, v):
+        self.v = v
+        self.w = 0
+
+
 def chain_ok(c):
     c.put(3)
     return c.v + 1
